@@ -101,9 +101,15 @@ fn successor_walk(n: u8) {
         s2_ref == 0
     };
     assert!(got == want);
-    if got {
-        assert!(old.successor_is_durable_or_deleted()); // memoised answer stays true
-    }
+    // the memo is sound: a record is marked `successor_safe` only if ITS OWN successor chain is durable or deleted – a walk that
+    // answers `false` must not leave a shortcut behind that makes the next evaluation answer `true`
+    let s1_safe = if n < 2 { true } else { s2_sector > 0 || s2_ref == 0 };
+    assert!(!old.successor_safe.load(Ordering::Acquire) || want);
+    assert!(!s1.successor_safe.load(Ordering::Acquire) || s1_safe);
+    // evaluating again (the retirement queue is re-examined on every flush round) gives the same answer
+    let again = old.successor_is_durable_or_deleted();
+    assert!(again == want);
+    kani::cover!(n == 2 && !got && !again, "second evaluation of a live non-durable tail");
     kani::cover!(n == 2 && got && s1_sector == 0, "durable second successor");
     kani::cover!(n == 2 && !got, "live non-durable tail");
     std::mem::forget((old, s1, s2));
